@@ -132,7 +132,7 @@ func init() {
 		if !ok {
 			return fmt.Errorf("compare: first statement is not the NULL guard")
 		}
-		c.defString("compareNullGuard", squash(c.src("go/store/val/tuple_compare.go", guard)))
+		c.defString("compareNullGuard", valSquash(c.src("go/store/val/tuple_compare.go", guard)))
 		csw, ok := cf.Body.List[1].(*ast.SwitchStmt)
 		if !ok || exprName(csw.Tag) != "typ.Enc" {
 			return fmt.Errorf("compare: second statement is not switch typ.Enc")
@@ -190,7 +190,7 @@ func init() {
 			if !ok || fd.Recv != nil || !strings.HasPrefix(fd.Name.Name, "compare") {
 				continue
 			}
-			src := squash(c.src("go/store/val/codec.go", fd.Body))
+			src := valSquash(c.src("go/store/val/codec.go", fd.Body))
 			if src == "{ if l == r { return 0 } else if l < r { return -1 } else { return 1 } }" {
 				plain = append(plain, fd.Name.Name)
 			}
@@ -211,7 +211,7 @@ func init() {
 			if !ok {
 				continue
 			}
-			deleg = append(deleg, [2]string{fd.Name.Name, squash(c.src("go/store/val/codec.go", call))})
+			deleg = append(deleg, [2]string{fd.Name.Name, valSquash(c.src("go/store/val/codec.go", call))})
 		}
 		c.defStringPairs("delegatingComparers", deleg)
 
@@ -220,12 +220,12 @@ func init() {
 		if nt == nil || len(nt.Body.List) == 0 {
 			return fmt.Errorf("NewTuple not found")
 		}
-		c.defString("newTupleFirstStmt", squash(c.src("go/store/val/tuple.go", nt.Body.List[0])))
+		c.defString("newTupleFirstStmt", valSquash(c.src("go/store/val/tuple.go", nt.Body.List[0])))
 		tn := findFunc(tuple, "", "trimNullSuffix")
 		if tn == nil {
 			return fmt.Errorf("trimNullSuffix not found")
 		}
-		c.defString("trimNullSuffixBody", squash(c.src("go/store/val/tuple.go", tn.Body)))
+		c.defString("trimNullSuffixBody", valSquash(c.src("go/store/val/tuple.go", tn.Body)))
 		return nil
 	})
 }
@@ -240,7 +240,7 @@ func firstSwitch(b *ast.BlockStmt) *ast.SwitchStmt {
 }
 
 // squash collapses white space (so that gofmt-only changes do not break a Tie)
-func squash(s string) string { return strings.Join(strings.Fields(s), " ") }
+func valSquash(s string) string { return strings.Join(strings.Fields(s), " ") }
 
 // defNameNat emits List (String × Nat)
 func (c *ctx) defNameNat(name string, vs [][2]string) {
